@@ -268,6 +268,7 @@ type MemHandle struct {
 	closed bool
 	write  bool
 	mapped bool
+	unmapped bool // mapped handle of an empty file: nothing is mapped
 }
 
 func (h *MemHandle) Name() string { return h.name }
@@ -409,7 +410,9 @@ func (h *MemHandle) Close() error {
 	}
 	h.closed = true
 	if h.mapped {
-		h.fs.OpenMaps--
+		if !h.unmapped {
+			h.fs.OpenMaps--
+		}
 	} else {
 		h.fs.OpenHandles--
 	}
@@ -480,7 +483,12 @@ func (f *FS) mmapOpen(name string) (*mmap.ReaderAt, error) {
 		return nil, notExist("open", name)
 	}
 	h := &MemHandle{fs: f, n: n, name: name, mapped: true}
-	f.OpenMaps++
+	if len(n.data) == 0 {
+		// like the real mmap.Open: an empty file is not mapped at all, there is nothing to release
+		h.unmapped = true
+	} else {
+		f.OpenMaps++
+	}
 	return HandleMmap(h), nil
 }
 
